@@ -18,6 +18,50 @@ def stores(fn, field):
     return res
 
 
+class EStore:
+    """a store to a coin field as seen from method f: made by f itself, or by a private helper method of the coin that f calls on self
+    (the helper's operands are lifted to f's frame through the call's arguments)"""
+    __slots__ = ("node", "names", "fields", "params", "consts", "zero", "loc")
+
+    def __init__(self, node, names, fields, params, consts, zero, loc):
+        self.node, self.names, self.fields, self.params, self.consts, self.zero, self.loc = node, names, fields, params, consts, zero, loc
+
+
+def eff_stores(prog, f, field, depth=0):
+    g = flow(f)
+    res = []
+    for b, i, s in stores(f, field):
+        ops, places = g._rv_ops(s["rv"])
+        w = g.walk(ops=ops, places=places, at=(b, i))
+        res.append(EStore((b, S), set(g.callee_names_in(w)), set(g.fields_in(w)), {f.local_name(p) for p in g.params_in(w)}, set(g.consts_in(w)),
+                          s["rv"]["k"] == "use" and const_int(s["rv"]["a"]) == 0, f.loc(b, i)))
+    if depth >= 2:
+        return res
+    adt = f.get("impl_self_adt")
+    for b, t in f.calls():
+        cands, _ = prog.resolve_call(t)
+        if len(cands) != 1:
+            continue
+        h = cands[0]
+        if h is f or h.get("impl_self_adt") != adt or adt is None or h.get("impl_trait"):
+            continue  # only private inherent helpers of the same type
+        for es in eff_stores(prog, h, field, depth + 1):
+            names, fields, consts, params = set(es.names), set(es.fields), set(es.consts), set()
+            for pi, pn in enumerate((h.local_name(k + 1) for k in range(h.arg_count))):
+                if pn in es.params and pi < len(t["args"]):
+                    w = g.walk(ops=[t["args"][pi]], at=(b, T))
+                    names |= set(g.callee_names_in(w))
+                    fields |= set(g.fields_in(w))
+                    consts |= set(g.consts_in(w))
+                    params |= {f.local_name(p) for p in g.params_in(w)}
+            res.append(EStore((b, T), names, fields, params, consts, es.zero, f.loc(b, T)))
+    return res
+
+
+def _has_field(es, name):
+    return any(fl == name and a.endswith("RandomCoin") for a, fl in es.fields)
+
+
 def rets(fn):
     return [(b, T) for b, blk in enumerate(fn.blocks) if blk["t"]["k"] == "return"]
 
@@ -84,19 +128,14 @@ def check_new(ck, prog, label, f):
 
 
 def check_reseed(ck, prog, label, f):
-    g = flow(f)
-    ss = stores(f, "seed")
-    cs = stores(f, "counter")
-    ok = False
-    for b, i, s in ss:
-        w = g.walk(ops=g._rv_ops(s["rv"])[0], places=g._rv_ops(s["rv"])[1], at=(b, i))
-        names = g.callee_names_in(w)
-        ok = any(n.endswith("Hasher::merge") for n in names) and _field_in(g, w, "seed") and 2 in g.params_in(w)
-    must = bool(ss) and must_between(f, None, [(b, S) for b, i, s in ss], rets(f))[0]
+    ss = eff_stores(prog, f, "seed")
+    cs = eff_stores(prog, f, "counter")
+    ok = any(any(n.endswith("Hasher::merge") for n in es.names) and _has_field(es, "seed") and f.local_name(2) in es.params for es in ss)
+    must = bool(ss) and must_between(f, None, [es.node for es in ss], rets(f))[0]
     ck.ob("STATE", f"{label}::reseed:seed", ok and must,
           f"{label}::reseed: new seed = merge(old seed, data) on every path", loc=f.loc())
-    okc = bool(cs) and all(s["rv"]["k"] == "use" and const_int(s["rv"]["a"]) == 0 for b, i, s in cs) and \
-        must_between(f, None, [(b, S) for b, i, s in cs], rets(f))[0]
+    zs = [es for es in cs if es.zero]
+    okc = bool(zs) and all(es.zero for es in cs) and must_between(f, None, [es.node for es in zs], rets(f))[0]
     ck.ob("STATE", f"{label}::reseed:counter", okc, f"{label}::reseed: counter reset to 0 on every path", loc=f.loc())
 
 
@@ -159,19 +198,16 @@ def _idx_of(f, e):
 
 def check_draw_integers(ck, prog, label, f, nxt):
     g = flow(f)
-    ss = stores(f, "seed")
-    cs = stores(f, "counter")
+    ss = eff_stores(prog, f, "seed")
+    cs = eff_stores(prog, f, "counter")
     nb = [(b, T) for b, t in f.calls() if callee_name(t) == nxt.nname]
-    ok_seed = False
-    for b, i, s in ss:
-        w = g.walk(ops=g._rv_ops(s["rv"])[0], places=g._rv_ops(s["rv"])[1], at=(b, i))
-        ok_seed = any(n.endswith("merge_with_int") for n in g.callee_names_in(w)) and _field_in(g, w, "seed") and \
-            any(f.local_name(p) == "nonce" for p in g.params_in(w))
-    before = bool(ss) and bool(nb) and must_between(f, None, [(b, S) for b, i, s in ss], nb)[0]
+    ok_seed = any(any(n.endswith("merge_with_int") for n in es.names) and _has_field(es, "seed") and "nonce" in es.params for es in ss)
+    before = bool(ss) and bool(nb) and must_between(f, None, [es.node for es in ss], nb)[0]
     ck.ob("STATE", f"{label}::draw_integers:reseed-with-nonce", ok_seed and before,
           f"{label}::draw_integers: seed = merge_with_int(seed, nonce) before the first value is drawn", loc=f.loc())
-    okc = bool(cs) and all(s["rv"]["k"] == "use" and const_int(s["rv"]["a"]) == 0 for b, i, s in cs) and \
-        bool(nb) and must_between(f, None, [(b, S) for b, i, s in cs], nb)[0]
+    # the reset precedes the first draw (the draws themselves advance the counter through next())
+    zs = [es for es in cs if es.zero]
+    okc = bool(zs) and bool(nb) and must_between(f, None, [es.node for es in zs], nb)[0]
     ck.ob("STATE", f"{label}::draw_integers:counter", okc, f"{label}::draw_integers: counter reset before the first value is drawn", loc=f.loc())
     pushes = [(b, t) for b, t in f.calls() if (callee_name(t) or "").endswith("Vec::push")]
     okp = bool(pushes)
